@@ -1,0 +1,34 @@
+//! verif-hooks (C14, add-only): the real `PeerStates::add_peer_config` call
+//! site (`find_existing_peer`, else `register` + `update_info`), callable by
+//! the external verification harness with the bytes of a per-peer header.
+use std::sync::Arc;
+
+use bytes::Bytes;
+use routecore::bgp::message::SessionConfig;
+use routecore::bmp::message::PerPeerHeader;
+
+use super::state_machine::{PeerAware, PeerStates};
+use crate::ingress::{IngressId, Register};
+
+/// The peer table of one BMP state machine.
+#[derive(Default)]
+pub struct PeerTable(PeerStates);
+
+impl PeerTable {
+    /// Calls `PeerStates::add_peer_config` for the peer described by the 42
+    /// bytes of a BMP per-peer header.
+    pub fn add_peer(
+        &mut self,
+        pph: [u8; 42],
+        register: Arc<Register>,
+        bmp_ingress_id: IngressId,
+    ) -> bool {
+        self.0.add_peer_config(
+            PerPeerHeader::for_slice(Bytes::copy_from_slice(&pph)),
+            SessionConfig::modern(),
+            false,
+            register,
+            bmp_ingress_id,
+        )
+    }
+}
